@@ -27,16 +27,21 @@ RULE = ("random schemas of the C01 family using extends chains (<= 3), key-type/
 ASSUMPTIONS = [
     "no reference model: composed and expanded schema are both loaded by the real code and compared text by text",
     "schema-level extends keeps one key type across bases and extender (U7); derived types override the key type only over names that are fixed points of every key type (U18)",
-    "attribute order and handler order are not compared",
+    "the order of the attributes of section values below the top is compared (a section type keeps its children together, inherited ones first); the order at the top, which schema-level extends legitimately changes, and handler order are not",
 ]
 MAIN = "file:///zcv/main.conf"
-SECTION_DTS = ("zcv.dt.wrap", "zcv.dt.wrap2", "zcv.dtalt.wrap", "zcv.dtalt.wrap")
-VALUE_DTS = gen.KEY_DATATYPES + ["zcv.dt.evenint", "zcv.dt.evenint", "zcv.dtalt.evenint", "zcv.dtalt.evenint"]
-KEYTYPES = ["basic-key", "identifier", "ipaddr-or-hostname", "zcv.dt.basickey"]
+# names ending in a classmethod: each look-up of such a name yields a new bound-method object
+SECTION_DTS = ("zcv.dt.wrap", "zcv.dt.wrap2", "zcv.dtalt.wrap", "zcv.dtalt.wrap", "zcv.dt.Methods.wrap")
+VALUE_DTS = gen.KEY_DATATYPES + ["zcv.dt.evenint", "zcv.dt.evenint", "zcv.dtalt.evenint", "zcv.dtalt.evenint",
+                                 "zcv.dt.Methods.evenint"]
+KEYTYPES = ["basic-key", "identifier", "ipaddr-or-hostname", "zcv.dt.basickey", "zcv.dt.Methods.basickey"]
 
 gen.NAME_POOL.setdefault("zcv.dt.basickey", gen.NAME_POOL["basic-key"])
 gen.FREE_KEYS.setdefault("zcv.dt.basickey", gen.FREE_KEYS["basic-key"])
 gen.BAD_KEYS.setdefault("zcv.dt.basickey", gen.BAD_KEYS["basic-key"])
+gen.NAME_POOL.setdefault("zcv.dt.Methods.basickey", gen.NAME_POOL["basic-key"])
+gen.FREE_KEYS.setdefault("zcv.dt.Methods.basickey", gen.FREE_KEYS["basic-key"])
+gen.BAD_KEYS.setdefault("zcv.dt.Methods.basickey", gen.BAD_KEYS["basic-key"])
 
 
 def boost_rekey(rng, ast):
@@ -81,7 +86,7 @@ def boost_rekey(rng, ast):
 def outcome(schema, text):
     got = loadcheck.real_load(schema, text, url=MAIN)
     if got[0] == "ok":
-        return ("ok", digest.digest(got[1]))
+        return ("ok", digest.digest(got[1]), digest.attr_orders(got[1]))
     if got[0] == "reject":
         return ("reject",)
     return ("internal", type(got[1]).__name__, got[2])
@@ -140,6 +145,12 @@ def compare_case(ast, comp, texts):
                 d = digest.first_diff(a[1], b[1])
                 if d:
                     fl.append(("composition-changes-tree", "%s ; features %s" % (d, sorted(comp.features))))
+                elif a[2] != b[2]:
+                    # the children of a section type stay together wherever the type is defined:
+                    # the base's first, then its own, in declaration order
+                    d = next((x, y) for x, y in zip(a[2], b[2]) if x != y)
+                    fl.append(("composition-changes-order-of-children", "%r expanded vs %r composed ; features %s"
+                               % (d[0], d[1], sorted(comp.features))))
             out.append((text, fl, a))
     finally:
         comp.cleanup()
